@@ -68,6 +68,11 @@ PROPS = {
             "rule": "one case per TLC state of Sense.tla (coils, coil_batch_size, Cartesian/non-Cartesian, weights) x image shapes: dense operator vs explicit encoding, adjoint, batch invariance; plus SenseRecon / TotalVariationRecon / L1WaveletRecon runs against independent references; non-trivial = more than one coil",
             "assumptions": ["image shapes (4,4), (3,4), (5,2), (2,3,2); non-Cartesian accuracy bound 3 % (C06 default)", "recon references: dense ridge solution; independent numpy primal-dual run for TV / Haar-l1 (tolerance 2e-3 on the objective)"],
             "trusted": TLC_BASE + ["harness DFT / NDFT matrices", "independent numpy reference solver"]},
+    "C19": {"level": "model_checking", "engines": [("bloch", "bloch", "run")],
+            "rule": "exact tier: one case per TLC state of Bloch.tla (simulator, exact waveform prefix, optional split) replayed on abrm_hp / blochsim; numeric tier: random waveforms through all five simulators and inverse-SLR round trips (random polynomials, every dzrf ptype x ftype); all non-trivial",
+            "assumptions": ["exact tier: rotation half-angles with rational cos/sin (0, pi, 2atan(4/3), 2atan(3/4)), RF and gradient phases on rational points of the unit circle, length <= 2 (rich) / 3-4 (axis-aligned)", "numeric bounds 1e-9 (identities), 1e-5 (SLR round trip with max|B| <= 0.95)",
+                            "abrm_ptx returns the inverse-rotation convention: composition checked in the opposite order"],
+            "trusted": TLC_BASE + ["Rat/CRat arithmetic"]},
     "C09": {
         "level": "model_checking",
         "engines": [("index_maps", "index_maps", "run")],
@@ -82,6 +87,8 @@ PROPS = {
 HOOK_COMMITS = ["609775d"]
 
 ENGINES = [
+    {"name": "bloch", "path": "harness/engines/bloch.py + spec/Bloch.tla, CRat.tla, AccuracyTrace.tla", "serves_properties": ["C19"],
+     "kind_free_text": "TLC over exact SU(2) hard-pulse recursions (unitarity, zero pulse, composition) + replay; numeric defects of all simulators and SLR round trips validated against spec thresholds"},
     {"name": "sense", "path": "harness/engines/sense.py + spec/Sense.tla", "serves_properties": ["C16", "C01"],
      "kind_free_text": "TLC over coil-batching plans; dense factory vs explicit multi-coil encoding; recon apps vs independent references"},
     {"name": "wavelet", "path": "harness/engines/wavelet.py + spec/Wavelet.tla, spec/AccuracyTrace.tla", "serves_properties": ["C10", "C01"],
@@ -146,7 +153,7 @@ MANIFEST_TEXT = {
 }
 
 NOT_APPLICABLE = {p: "check not built yet in this round (planned, see DESIGN.md section 5)" for p in
-                  ["C17", "C19"]}
+                  ["C17"]}
 
 MANIFEST_TEXT["C18"] = {
     "text": "PoissonSearch.tla models the slope bisection on a float lattice with an arbitrary (non-monotone) acceleration function; TLC checks OkIsWithinTol and the liveness property Terminates (the loop without the collapse test is kept as a negative control that must fail). poisson() is run on the real code with _poisson wrapped under a watchdog; every call (probes as slope ranks + integer facts about the mask, RNG state crc, reproducibility memo) is validated by TLC against PoissonTrace.tla.",
@@ -213,3 +220,9 @@ MANIFEST_TEXT["C16"] = {
     "design_ref": "DESIGN.md section 5 C16",
     "note": "Operator clause: model_checking + exact comparison (Cartesian 1e-10; non-Cartesian within the NUFFT accuracy). Recon clause is numeric against independent references.",
     "technique": "TLA+ batching plan (TLC) + spec-to-code replay against explicit encoding matrices and reference optima"}
+
+MANIFEST_TEXT["C19"] = {
+    "text": "Bloch.tla transcribes the hard-pulse spinor recursions of abrm_hp and blochsim (order of RF and gradient steps, final half-phase) over Q(i) with Pythagorean angles; TLC checks unitarity on every prefix, the zero-pulse law and the composition law exactly; every state is replayed on the real simulators (1e-10) and composition re-checked on the code. Random complex waveforms (length 1-256, small to >pi flips, 1-3-D positions) go through all five simulators, and random / dzrf beta polynomials through b2rf + hard-pulse simulation; the measured defects are accepted by TLC against the AccuracyTrace bounds.",
+    "design_ref": "DESIGN.md section 5 C19",
+    "note": "model_checking for the exact hard-pulse family; simultaneous-rotation simulators, random waveforms and the SLR round trip are numeric. dzrf designs with max|B| >= 0.95 are rescaled to 0.95 (premise max|B| < 1).",
+    "technique": "TLA+ exact SU(2) recursion (TLC) + replay + measured defects validated against spec thresholds"}
